@@ -19,9 +19,11 @@ echo "== demo WITH the change (must fail)"
 timeout 300 go test -mod=mod -vet=off -count=1 -run "$DEMO" $PKG > $OUT/demo_with.txt 2>&1; with=$?
 tail -3 $OUT/demo_with.txt
 echo "== demo WITHOUT the change (must pass)"
-git stash push -q -- $(git diff --name-only | grep -v zz_seed_demo) || exit 2
+# not git stash: the stash is shared by all worktrees of one repository, and sub-agents working in sibling worktrees use it too
+git diff -- $(git diff --name-only | grep -v zz_seed_demo) > .seedcheck.saved.diff || exit 2
+git apply -R .seedcheck.saved.diff || exit 2
 timeout 300 go test -mod=mod -vet=off -count=1 -run "$DEMO" $PKG > $OUT/demo_without.txt 2>&1; without=$?
-git stash pop -q
+git apply .seedcheck.saved.diff && rm -f .seedcheck.saved.diff
 tail -3 $OUT/demo_without.txt
 fi
 if [ $ONLY = all -o $ONLY = suite ]; then
